@@ -279,6 +279,47 @@ fn num_rnum(n: &Number) -> Result<RNum, String> {
 
 const KINDS: [&str; 9] = ["dsolve:f64", "dsolve:Dual", "dsolve:Dual2", "dsolve:Number(F64/Dual)", "dsolve:Number(F64/Dual2)", "fdsolve:f64", "fdsolve:Dual", "fdsolve:Dual2", "fdsolve:Number"];
 
+thread_local! {
+    /// memory layout in which the system is handed to the solver (0 row-major, 1 column-major, 2 transposed view of
+    /// an owned transpose, 3 strided window of a larger array); the answer must not depend on it
+    static LAYOUT: std::cell::Cell<usize> = std::cell::Cell::new(0);
+}
+const LAYOUTS: [&str; 4] = ["row-major", "column-major", "transposed-view", "strided-window"];
+
+fn with_layout<T: Clone, R>(am: &Array2<T>, f: impl FnOnce(&ndarray::ArrayView2<T>) -> R) -> R {
+    use ndarray::{s, ShapeBuilder};
+    let (m, n) = am.dim();
+    match LAYOUT.with(|l| l.get()) {
+        1 => {
+            let cm = Array2::from_shape_vec((m, n).f(), am.t().iter().cloned().collect()).unwrap();
+            f(&cm.view())
+        }
+        2 => {
+            let at = Array2::from_shape_vec((n, m), am.t().iter().cloned().collect()).unwrap();
+            f(&at.t())
+        }
+        3 => {
+            let fill = am[[0, 0]].clone();
+            let mut big = Array2::from_elem((m + 1, n + 2), fill);
+            big.slice_mut(s![..m, 1..n + 1]).assign(am);
+            f(&big.slice(s![..m, 1..n + 1]))
+        }
+        _ => f(&am.view()),
+    }
+}
+
+fn with_layout1<T: Clone, R>(bv: &Array1<T>, f: impl FnOnce(&ndarray::ArrayView1<T>) -> R) -> R {
+    use ndarray::s;
+    if LAYOUT.with(|l| l.get()) == 3 && !bv.is_empty() {
+        // every second element of a longer vector
+        let mut big = Array1::from_elem(2 * bv.len(), bv[0].clone());
+        big.slice_mut(s![..;2]).assign(bv);
+        f(&big.slice(s![..;2]))
+    } else {
+        f(&bv.view())
+    }
+}
+
 fn arr2<T: Clone>(v: &[Vec<T>]) -> Array2<T> {
     let (m, n) = (v.len(), v[0].len());
     Array2::from_shape_vec((m, n), v.iter().flat_map(|r| r.iter().cloned()).collect()).unwrap()
@@ -300,13 +341,13 @@ fn solve_kind(kind: usize, a: &[Vec<Entry>], b: &[Entry], lsq: bool, ord8: usize
         0 => {
             let am = arr2(&fa);
             let bv = Array1::from_vec(b.iter().map(|e| e.v).collect());
-            let x = dsolve(&am.view(), &bv.view(), lsq);
+            let x = with_layout(&am, |av| with_layout1(&bv, |bw| dsolve(av, bw, lsq)));
             Ok((fa.iter().map(|r| r.iter().map(|v| RNum::constant(*v)).collect()).collect(), x.iter().map(|v| RNum::constant(*v)).collect(), b.iter().map(|e| RNum::constant(e.v)).collect(), 0, None))
         }
         1 => {
             let am = arr2(&a.iter().map(|r| r.iter().map(|e| e.dual()).collect::<Vec<_>>()).collect::<Vec<_>>());
             let bv = Array1::from_vec(b.iter().map(|e| e.dual()).collect());
-            let x = dsolve(&am.view(), &bv.view(), lsq);
+            let x = with_layout(&am, |av| with_layout1(&bv, |bw| dsolve(av, bw, lsq)));
             // the residual through the real multiplication as well (never alone)
             let rr = if !lsq { Some(back!(dmul21_(&am.view(), &x.view()), |d: &Dual| d.to_rnum())) } else { None };
             Ok((a.iter().map(|r| r.iter().map(|e| e.rnum(1)).collect()).collect(), back!(x, |d: &Dual| d.to_rnum()), b.iter().map(|e| e.rnum(1)).collect(), 1, rr))
@@ -314,7 +355,7 @@ fn solve_kind(kind: usize, a: &[Vec<Entry>], b: &[Entry], lsq: bool, ord8: usize
         2 => {
             let am = arr2(&a.iter().map(|r| r.iter().map(|e| e.dual2()).collect::<Vec<_>>()).collect::<Vec<_>>());
             let bv = Array1::from_vec(b.iter().map(|e| e.dual2()).collect());
-            let x = dsolve(&am.view(), &bv.view(), lsq);
+            let x = with_layout(&am, |av| with_layout1(&bv, |bw| dsolve(av, bw, lsq)));
             let rr = if !lsq { Some(back!(dmul21_(&am.view(), &x.view()), |d: &Dual2| d.to_rnum())) } else { None };
             Ok((a.iter().map(|r| r.iter().map(|e| e.rnum(2)).collect()).collect(), back!(x, |d: &Dual2| d.to_rnum()), b.iter().map(|e| e.rnum(2)).collect(), 2, rr))
         }
@@ -330,25 +371,25 @@ fn solve_kind(kind: usize, a: &[Vec<Entry>], b: &[Entry], lsq: bool, ord8: usize
             };
             let am = arr2(&a.iter().map(|r| r.iter().map(mk).collect::<Vec<_>>()).collect::<Vec<_>>());
             let bv = Array1::from_vec(b.iter().map(mk).collect());
-            let x = dsolve(&am.view(), &bv.view(), lsq);
+            let x = with_layout(&am, |av| with_layout1(&bv, |bw| dsolve(av, bw, lsq)));
             Ok((a.iter().map(|r| r.iter().map(|e| e.rnum(order)).collect()).collect(), back!(x, num_rnum), b.iter().map(|e| e.rnum(order)).collect(), order, None))
         }
         5 => {
             let am = arr2(&fa);
             let bv = Array1::from_vec(b.iter().map(|e| e.v).collect());
-            let x = fdsolve(&am.view(), &bv.view(), lsq);
+            let x = with_layout(&am, |av| with_layout1(&bv, |bw| fdsolve(av, bw, lsq)));
             Ok((fa.iter().map(|r| r.iter().map(|v| RNum::constant(*v)).collect()).collect(), x.iter().map(|v| RNum::constant(*v)).collect(), b.iter().map(|e| RNum::constant(e.v)).collect(), 0, None))
         }
         6 => {
             let am = arr2(&fa);
             let bv = Array1::from_vec(b.iter().map(|e| e.dual()).collect());
-            let x = fdsolve(&am.view(), &bv.view(), lsq);
+            let x = with_layout(&am, |av| with_layout1(&bv, |bw| fdsolve(av, bw, lsq)));
             Ok((fa.iter().map(|r| r.iter().map(|v| RNum::constant(*v)).collect()).collect(), back!(x, |d: &Dual| d.to_rnum()), b.iter().map(|e| e.rnum(1)).collect(), 1, None))
         }
         7 => {
             let am = arr2(&fa);
             let bv = Array1::from_vec(b.iter().map(|e| e.dual2()).collect());
-            let x = fdsolve(&am.view(), &bv.view(), lsq);
+            let x = with_layout(&am, |av| with_layout1(&bv, |bw| fdsolve(av, bw, lsq)));
             Ok((fa.iter().map(|r| r.iter().map(|v| RNum::constant(*v)).collect()).collect(), back!(x, |d: &Dual2| d.to_rnum()), b.iter().map(|e| e.rnum(2)).collect(), 2, None))
         }
         _ => {
@@ -362,7 +403,7 @@ fn solve_kind(kind: usize, a: &[Vec<Entry>], b: &[Entry], lsq: bool, ord8: usize
             };
             let am = arr2(&fa);
             let bv = Array1::from_vec(b.iter().map(mk).collect());
-            let x = fdsolve(&am.view(), &bv.view(), lsq);
+            let x = with_layout(&am, |av| with_layout1(&bv, |bw| fdsolve(av, bw, lsq)));
             Ok((fa.iter().map(|r| r.iter().map(|v| RNum::constant(*v)).collect()).collect(), back!(x, num_rnum), b.iter().map(|e| e.rnum(order)).collect(), order, None))
         }
     }
@@ -388,6 +429,9 @@ impl Prop for C13 {
         for k in KINDS {
             v.push(format!("kind:{}", k));
             v.push(format!("lsq:{}", k));
+        }
+        for l in LAYOUTS {
+            v.push(format!("layout:{}", l));
         }
         for s in ["swaps:0", "swaps:1", "swaps:2+", "row-permutation", "pattern:zero-diagonal", "pattern:permuted-diagonal-plus-fill", "pattern:ties-in-absolute-value", "pattern:dense", "n:1", "n:8"] {
             v.push(s.to_string());
@@ -439,6 +483,14 @@ impl Prop for C13 {
         ctx.crumb(&format!("{} {}x{} {} lsq={}", KINDS[kind], rows, cols, pat, lsq));
         let case = || json!({"kind": KINDS[kind], "rows": rows, "cols": cols, "pattern": pat, "allow_lsq": lsq, "oracle_lu_row_swaps": swaps, "system": describe(&a, &b)});
         let ord8 = 1 + rng.usize(2);
+        let layout = ((idx / 9) % 4) as usize;
+        LAYOUT.with(|l| l.set(layout));
+        ctx.class(&format!("layout:{}", LAYOUTS[layout]));
+        let case = || {
+            let mut c = case();
+            c["memory_layout_of_A_and_b"] = json!(LAYOUTS[layout]);
+            c
+        };
         let solved = guarded(|| solve_kind(kind, &a, &b, lsq, ord8));
         ctx.eval(1);
         let (ra, x, rb, order, real_ax) = match solved {
@@ -488,7 +540,10 @@ impl Prop for C13 {
             rng.shuffle(&mut perm);
             let a2: Vec<Vec<Entry>> = perm.iter().map(|i| a[*i].clone()).collect();
             let b2: Vec<Entry> = perm.iter().map(|i| b[*i].clone()).collect();
+            // (the permuted system is handed over in another layout as well)
+            LAYOUT.with(|l| l.set((layout + 1 + rng.usize(3)) % 4));
             let second = guarded(|| solve_kind(kind, &a2, &b2, lsq, ord8));
+            LAYOUT.with(|l| l.set(layout));
             ctx.eval(1);
             ctx.class("row-permutation");
             match second {
